@@ -126,6 +126,21 @@ def eval_rows(q, world, inst):
         return exc_obs(e)
 
 
+def eval_rows_after_partial(q, world, inst, take=1):
+    """build a set_of query; take `take` results of a FIRST evaluation and close the iterator, then evaluate it fully;
+    returns that full result (a list of tuples or ('EXC', ...))"""
+    try:
+        obj, b = Q.build(q, world, inst)
+        sel = b.sel[q]
+        it = obj.evaluate()
+        for _ in range(take):
+            next(it, None)
+        it.close()
+        return [tuple(r[s] for s in sel) for r in obj.evaluate()]
+    except Exception as e:
+        return exc_obs(e)
+
+
 def is_exc(x):
     return isinstance(x, tuple) and len(x) == 3 and x[0] == "EXC"
 
